@@ -377,16 +377,159 @@ def gen_pfba(rng, n):
     return cases
 
 
+# ------------------------------------------------------------------ linear MOMA
+def aux_lp_py(net, wb, avb, ups, los):
+    """replica of Secondary/AuxLp.v aux_lp (untrusted; certificates are checked against the Gallina LP)"""
+    n = len(net["rxns"])
+    base = split_lp(net)
+    rows = [(c + [F(0)] * (1 + n), lo, hi) for c, lo, hi in base["rows"]]
+    rows.append((dup(raw_obj(net)) + [F(-1)] + [F(0)] * n, F(0), F(0)))
+    for spec in (ups, los):
+        for i, (k, lo, hi) in enumerate(spec):
+            c = [F(0)] * (3 * n + 1)
+            c[2 * i], c[2 * i + 1], c[2 * n + 1 + i] = F(1), F(-1), k
+            rows.append((c, lo, hi))
+    return {"vb": base["vb"] + [wb] + list(avb), "rows": rows, "obj": [F(0)] * (2 * n + 1) + [F(-1)] * n}
+
+
+def moma_lp_py(net, ref):
+    n = len(net["rxns"])
+    return aux_lp_py(net, (None, None), [(F(0), None)] * n, [(F(-1), None, r) for r in ref],
+                     [(F(1), r, None) for r in ref])
+
+
+def reference(case, wt_model, rec_pfba=None):
+    """the `solution=` argument: an optimal solution of the un-knocked-out model, or None"""
+    from cobra.flux_analysis import pfba
+    kind = case.get("ref", "fba")
+    if kind == "default":
+        return None
+    if kind == "pfba":
+        return pfba(wt_model)
+    return wt_model.optimize()
+
+
+def sobs_term(sol, ids):
+    if sol is None:
+        return "SOther"
+    if list(sol.fluxes.index) != ids:
+        return "SOther"
+    if sol.status != "optimal":
+        return "(SSol %s 0 [])" % STATUS.get(sol.status, "OtherSt")
+    return "(SSol Optimal %s %s)" % (qs(sol.objective_value), fvec(sol.fluxes.values))
+
+
+def moma_case(case):
+    import importlib
+    moma_mod = importlib.import_module("cobra.flux_analysis.moma")
+    case = normalise(case)
+    wt = case["net"]
+    net = knocked(wt, case.get("ko") or [])
+    ids = [r["id"] for r in net["rxns"]]
+    obs = {}
+    with warnings.catch_warnings():
+        warnings.simplefilter("ignore")
+        wt_model = gennet.to_cobra(wt, case["solver"])
+        try:
+            ref_sol = reference(case, wt_model)
+        except Exception as e:  # noqa  (wild type infeasible: no reference exists, out of the quantifier)
+            return None, {"skipped": True, "stats": {"kind": "moma", "skipped": "no reference: " + type(e).__name__}}
+        if ref_sol is not None and ref_sol.status != "optimal":
+            return None, {"skipped": True, "stats": {"kind": "moma", "skipped": "no reference: " + ref_sol.status}}
+        m = gennet.to_cobra(net, case["solver"])
+        used = {}
+        orig_pfba = moma_mod.pfba
+
+        def spy_pfba(model, *a, **kw):
+            used["sol"] = orig_pfba(model, *a, **kw)
+            return used["sol"]
+        moma_mod.pfba = spy_pfba
+        try:
+            # (a) the LP that add_moma builds
+            lp_obs, exc_add = "None", None
+            try:
+                with m:
+                    moma_mod.add_moma(m, solution=ref_sol, linear=True)
+                    got = read_lp(m, net,
+                                  extra_cols=["moma_old_objective"] + ["moma_dist_" + i for i in ids],
+                                  extra_rows=["moma_old_objective_constraint"] + ["abs_pos_moma_dist_" + i for i in ids]
+                                  + ["abs_neg_moma_dist_" + i for i in ids])
+                    lp_obs = "(Some %s)" % (BAD_LP if got is None or any(k != "continuous" for k in got[1])
+                                            else gennet.coq_lp(got[0]))
+            except Exception as e:  # noqa
+                exc_add = e
+                obs["add_moma_exception"] = type(e).__name__
+            # (b) the analysis itself
+            used.clear()
+            with Recorder(net) as rec:
+                try:
+                    sol = moma_mod.moma(m, solution=ref_sol, linear=True)
+                    exc = None
+                except Exception as e:  # noqa
+                    sol, exc = None, e
+        finally:
+            moma_mod.pfba = orig_pfba
+    if ref_sol is None:
+        if "sol" not in used:
+            # the default reference could not be computed: the model itself is infeasible -> pfba raised
+            fba = lpexact.certified(gennet.net_lp(net))
+            ok = exc is not None and fba[0] == "infeasible" and type(exc).__name__ == "Infeasible"
+            if ok:
+                return None, {"skipped": True, "stats": {"kind": "moma", "skipped": "default reference: model infeasible"}}
+            ref = [F(0)] * len(ids)
+        else:
+            ref = [qf(used["sol"].fluxes[i]) for i in ids]
+    else:
+        ref = [qf(ref_sol.fluxes[i]) for i in ids]
+    spec = lpexact.certified(moma_lp_py(net, ref))
+    default = None
+    if ref_sol is None:
+        default = lpexact.certified(gennet.net_lp(net))
+    last = rec.log[-1] if rec.log else None
+    sr = rec.sr(len(rec.log) - 1) if rec.log else DUMMY_SR
+    w = qs(last["all"].get("moma_old_objective")) if last and last["status"] == "optimal" else "0"
+    out = exn_term(exc).replace("PRaise", "SRaise").replace("POther", "SOther") if exc is not None else sobs_term(sol, ids)
+    if sol is not None:
+        obs.update(status=sol.status, objective_value=sol.objective_value,
+                   fluxes={k: float(v) for k, v in sol.fluxes.items()})
+    if exc is not None:
+        obs["exception"] = type(exc).__name__
+    obs["reference"] = [float(x) for x in ref]
+    obs["exact"] = {"spec": spec[0], "min_distance": None if spec[0] != "optimal" else
+                    str(sum(spec[1][2 * len(ids) + 1:], F(0)))}
+    term = "(CMoma (mkMoma %s %s %s %s %s %s %s %s))" % (
+        gennet.coq_net(net), vec(ref), opt(None if default is None else oracle_term(default)), oracle_term(spec),
+        lp_obs, sr, w, out)
+    return term, {"obs": obs, "nontrivial": spec[0] == "optimal",
+                  "stats": {"kind": "moma", "spec": spec[0], "ref": case.get("ref", "fba"), "dir": net["dir"],
+                            "solver": case["solver"], "n_ko": len(case.get("ko") or []), "n_rxns": len(ids)}}
+
+
+def gen_moma(rng, n):
+    cases = []
+    for k in range(n):
+        net = gennet.gen_network(rng, finite_only=(k % 5 != 0), genes=False, forced_p=0.2 if k % 6 == 0 else 0.05)
+        ids = [r["id"] for r in net["rxns"]]
+        c = {"kind": "moma", "net": net, "solver": "glpk_exact" if k % 7 == 3 else "glpk",
+             "ref": ["fba", "pfba", "default", "fba"][k % 4], "ko": []}
+        if rng.random() < 0.75:
+            c["ko"] = rng.sample(ids, 1 if rng.random() < 0.7 else min(2, len(ids)))
+        cases.append(c)
+    return cases
+
+
 # ------------------------------------------------------------------ driver interface
 def gen_cases(rng, tier):
     quick = tier == "quick"
-    return gen_pfba(rng, 260 if quick else 3000)
+    return gen_pfba(rng, 260 if quick else 3000) + gen_moma(rng, 200 if quick else 2500)
 
 
 def case_term(case):
     kind = case.get("kind", "pfba")
     if kind == "pfba":
         return pfba_case(case)
+    if kind == "moma":
+        return moma_case(case)
     raise ValueError("unknown case kind %r" % kind)
 
 
